@@ -50,7 +50,13 @@ impl Backend {
 
                 // Full range includes the entire function body
                 let end_line = Self::internal_line_to_lsp(definition.end_line);
-                let range = Self::create_range(line, 0, end_line, 0);
+                // The full range must contain the selection range (LSP): a fixture that ends on its
+                // own name line (one-line def, assignment-style fixture) extends at least to the name.
+                let range = if end_line > line {
+                    Self::create_range(line, 0, end_line, 0)
+                } else {
+                    Self::create_range(line, 0, line, end_char)
+                };
 
                 // Build detail string with return type if available
                 let detail = definition
